@@ -1,9 +1,11 @@
 """C15 - clipping relationships are resolved correctly and kept current.
 
 Part 1 (proved + correspondence): `_compute_clipping_layers` = the per-layer specification.
-Part 2 (search only, on the real code): the relation reported by `clip_layers` / `_has_clip_target`
-is the specification evaluated on the *current* tree after every structural edit, flag change and
-compatibility-mode change.
+Part 2 (proved over a state model + a regenerated table of the public mutators; searched on the real code):
+the relation stored on the layers (`_clip_layers` / `_has_clip_target`) is the specification evaluated on the
+*current* tree after every structural edit, flag change, blend-mode change and compatibility-mode change.
+Part 3 (correspondence): every public call of the edit histories on the real code and on the state model
+(`clipst.hist`, driven by the regenerated table), comparing the private attributes after every call.
 """
 from __future__ import annotations
 
@@ -174,13 +176,47 @@ def random_nodes(rng, depth, budget, leaf_pt=False):
 
 
 # ---- edit operations for the "kept current" half ---------------------------------------------------
+# name of an operation of the harness -> the public mutators it calls (rows of Generated/ClipCurrent.lean)
 OPS = ["move_up", "move_down", "append", "remove", "insert", "pop", "delitem", "setitem", "extend", "clear",
-       "move_to_group", "delete_layer", "group_new", "group_layers", "set_clipping", "set_compat", "set_blend"]
+       "move_to_group", "delete_layer", "group_new", "group_layers", "set_clipping", "set_compat", "set_blend",
+       "set_blend_layer", "setslice", "delslice", "move_out_group", "move_out_doc", "group_layers_out", "move_in",
+       "adopt_foreign"]
 
 
-def apply_op(img, op, rng):
+class World:
+    """The observed document plus what lies outside it: a second document and detached groups (destinations of
+    moves that leave the document, sources of layers that come in carrying stale attributes)."""
+
+    def __init__(self, img):
+        self.img = img
+        self.other = None          # a second PSDImage, made on demand
+        self.detached = []         # Group objects that belong to no document
+        self.trace = None          # callable(row name) -> None: called after every public mutator call
+
+    def called(self, row):
+        if self.trace is not None:
+            self.trace(row)
+
+    def second(self):
+        if self.other is None:
+            self.other, _, _ = db.make_image(db.nested(to_nested(
+                [(False, False, None), (True, False, None), (False, True, [(True, False, None), (False, False, None), (True, False, None)])])))
+        return self.other
+
+    def outside_layers(self):
+        out = []
+        if self.other is not None:
+            out += list(db.walk(self.other))
+        for g in self.detached:
+            out += list(db.walk(g))
+        return out
+
+
+def apply_op(w, op, rng):
     """Apply one edit to the real document (arguments drawn from rng); returns a JSON-able description."""
     from psd_tools.api.layers import Group
+    from psd_tools.constants import BlendMode
+    img = w.img
     layers = list(db.walk(img))
     groups = [img] + [l for l in layers if hasattr(l, "_layers")]
     order = {id(l): k for k, l in enumerate(layers)}
@@ -190,7 +226,10 @@ def apply_op(img, op, rng):
             return None
         l = rng.choice(layers)
         k = rng.randrange(1, 3)
-        getattr(l, op)(k)
+        try:
+            getattr(l, op)(k)
+        finally:
+            w.called("Layer." + op)
         return {"op": op, "layer": order[id(l)], "offset": k}
     if op in ("append", "insert", "move_to_group"):
         if not layers:
@@ -200,14 +239,26 @@ def apply_op(img, op, rng):
         cands = [g for g in groups if g is not l and id(g) not in desc]
         g = rng.choice(cands)
         if op == "move_to_group":
-            l.move_to_group(g)
+            try:
+                l.move_to_group(g)
+            finally:
+                w.called("Layer.move_to_group")
             return {"op": op, "layer": order[id(l)], "group": order[id(g)]}
-        l._parent.remove(l)             # detach first (the guard of C09: arguments are detached layers)
+        try:
+            l._parent.remove(l)             # detach first (the guard of C09: arguments are detached layers)
+        finally:
+            w.called("GroupMixin.remove")
         if op == "append":
-            g.append(l)
+            try:
+                g.append(l)
+            finally:
+                w.called("GroupMixin.append")
             return {"op": op, "layer": order[id(l)], "group": order[id(g)]}
         i = rng.randrange(0, len(g) + 1)
-        g.insert(i, l)
+        try:
+            g.insert(i, l)
+        finally:
+            w.called("GroupMixin.insert")
         return {"op": op, "layer": order[id(l)], "group": order[id(g)], "index": i}
     if op in ("remove", "delete_layer", "pop", "delitem", "setitem"):
         cands = [g for g in groups if len(g) > 0]
@@ -216,38 +267,67 @@ def apply_op(img, op, rng):
         g = rng.choice(cands)
         i = rng.randrange(len(g))
         l = g[i]
-        if op == "remove":
-            g.remove(l)
-        elif op == "delete_layer":
-            l.delete_layer()
-        elif op == "pop":
-            g.pop(i)
-        elif op == "delitem":
-            del g[i]
-        else:
-            new, _, _ = db.make_image([{"t": "leaf", "clip": rng.random() < 0.5}])
-            x = new[0]
-            new.remove(x)
-            g[i] = x
+        try:
+            if op == "remove":
+                g.remove(l)
+            elif op == "delete_layer":
+                l.delete_layer()
+            elif op == "pop":
+                g.pop(i)
+            elif op == "delitem":
+                del g[i]
+            else:
+                new, _, _ = db.make_image([{"t": "leaf", "clip": rng.random() < 0.5}])
+                x = new[0]
+                new.remove(x)
+                g[i] = x
+        finally:
+            w.called({"remove": "GroupMixin.remove", "delete_layer": "Layer.delete_layer", "pop": "GroupMixin.pop",
+                      "delitem": "GroupMixin.__delitem__", "setitem": "GroupMixin.__setitem__"}[op])
         return {"op": op, "group": order[id(g)], "index": i}
+    if op in ("setslice", "delslice"):
+        g = rng.choice(groups)
+        i = rng.randrange(0, len(g) + 1)
+        j = rng.randrange(i, len(g) + 1)
+        try:
+            if op == "delslice":
+                del g[i:j]
+            else:
+                new, _, _ = db.make_image([{"t": "leaf", "clip": rng.random() < 0.5}, {"t": "leaf", "clip": rng.random() < 0.5}])
+                xs = list(new)
+                for x in xs:
+                    new.remove(x)
+                g[i:j] = xs
+        finally:
+            w.called("GroupMixin.__delitem__" if op == "delslice" else "GroupMixin.__setitem__")
+        return {"op": op, "group": order[id(g)], "slice": [i, j]}
     if op == "extend":
         g = rng.choice(groups)
         new, _, _ = db.make_image([{"t": "leaf", "clip": True}, {"t": "leaf", "clip": False}, {"t": "leaf", "clip": True}])
         xs = list(new)
         for x in xs:
             new.remove(x)
-        g.extend(xs)
+        try:
+            g.extend(xs)
+        finally:
+            w.called("GroupMixin.extend")
         return {"op": op, "group": order[id(g)]}
     if op == "clear":
         cands = [g for g in groups if g is not img and len(g) > 0]
         if not cands:
             return None
         g = rng.choice(cands)
-        g.clear()
+        try:
+            g.clear()
+        finally:
+            w.called("GroupMixin.clear")
         return {"op": op, "group": order[id(g)]}
     if op == "group_new":
         g = rng.choice(groups)
-        Group.new("new", parent=g)
+        try:
+            Group.new("new", parent=g)
+        finally:
+            w.called("Group.new")
         return {"op": op, "group": order[id(g)]}
     if op == "group_layers":
         cands = [g for g in groups if len(g) >= 2]
@@ -255,61 +335,230 @@ def apply_op(img, op, rng):
             return None
         g = rng.choice(cands)
         i = rng.randrange(0, len(g) - 1)
-        Group.group_layers([g[i], g[i + 1]], parent=g)
+        try:
+            Group.group_layers([g[i], g[i + 1]], parent=g)
+        finally:
+            w.called("Group.group_layers")
         return {"op": op, "group": order[id(g)], "index": i}
     if op == "set_clipping":
         if not layers:
             return None
         l = rng.choice(layers)
         v = not l.clipping_layer
-        l.clipping_layer = v
+        try:
+            l.clipping_layer = v
+        finally:
+            w.called("Layer.clipping_layer.setter")
         return {"op": op, "layer": order[id(l)], "value": v}
     if op == "set_blend":
         gs = [g for g in groups if g is not img]
         if not gs:
             return None
-        from psd_tools.constants import BlendMode
         g = rng.choice(gs)
         v = BlendMode.NORMAL if g.blend_mode == BlendMode.PASS_THROUGH else BlendMode.PASS_THROUGH
-        g.blend_mode = v
+        try:
+            g.blend_mode = v
+        finally:
+            w.called("Group.blend_mode.setter")
         return {"op": op, "layer": order[id(g)], "value": v.name}
-    if op == "set_compat":
-        m = rng.choice(MODES)
-        set_mode(img, m)
+    if op == "set_blend_layer":
+        ls = [l for l in layers if not hasattr(l, "_layers")]
+        if not ls:
+            return None
+        l = rng.choice(ls)
+        v = BlendMode.MULTIPLY if l.blend_mode == BlendMode.PASS_THROUGH else \
+            rng.choice([BlendMode.PASS_THROUGH, BlendMode.PASS_THROUGH, BlendMode.SCREEN])
+        try:
+            l.blend_mode = v
+        finally:
+            w.called("Layer.blend_mode.setter")
+        return {"op": op, "layer": order[id(l)], "value": v.name}
+    if op.startswith("set_compat"):
+        m = op.split("=")[1] if "=" in op else rng.choice(MODES)
+        op = "set_compat"
+        try:
+            set_mode(img, m)
+        finally:
+            w.called("PSDImage.compatibility_mode.setter")
         return {"op": op, "mode": m}
+    # ---- membership changes that cross the border of the document ------------------------------------
+    if op in ("move_out_group", "move_out_doc"):
+        if not layers:
+            return None
+        l = rng.choice(layers)
+        if op == "move_out_group":
+            if not w.detached or rng.random() < 0.5:
+                w.detached.append(Group.new("detached"))             # no parent: belongs to no document
+            dest = rng.choice(w.detached)
+        else:
+            other = w.second()
+            dest = rng.choice([other] + [x for x in db.walk(other) if hasattr(x, "_layers")])
+        try:
+            l.move_to_group(dest)
+        finally:
+            w.called("Layer.move_to_group")
+        return {"op": op, "layer": order[id(l)]}
+    if op == "group_layers_out":
+        cands = [g for g in groups if len(g) >= 1]
+        if not cands:
+            return None
+        g = rng.choice(cands)
+        i = rng.randrange(0, len(g))
+        xs = [g[i]] + ([g[i + 1]] if i + 1 < len(g) and rng.random() < 0.5 else [])
+        try:
+            Group.group_layers(xs, parent=w.second())
+        finally:
+            w.called("Group.group_layers")
+        return {"op": op, "group": order[id(g)], "index": i, "count": len(xs)}
+    if op in ("move_in", "adopt_foreign"):
+        if op == "adopt_foreign":
+            w.second()
+        pool = [x for x in w.outside_layers()]
+        if not pool:
+            return None
+        x = rng.choice(pool)
+        g = rng.choice(groups)
+        try:
+            x.move_to_group(g)
+        finally:
+            w.called("Layer.move_to_group")
+        return {"op": op, "group": order[id(g)]}
     raise ValueError(op)
 
 
-def run_history(recipe_nodes, mode, ops, seed):
+def describe(img):
+    """The current arrangement as nodes (clip, pass-through, kids) read off the real objects."""
+    from psd_tools.constants import BlendMode
+
+    def rec(group):
+        return [(bool(l.clipping_layer), l.blend_mode == BlendMode.PASS_THROUGH, rec(l) if hasattr(l, "_layers") else None)
+                for l in group._layers]
+    return rec(img)
+
+
+def private_relation(img):
+    """Per layer in pre-order: (`_has_clip_target`, positions of `_clip_layers`), the private attributes only."""
+    ls = list(db.walk(img))
+    pos = {id(l): k for k, l in enumerate(ls)}
+    return [(bool(l._has_clip_target), [pos.get(id(x), -1) for x in l._clip_layers]) for l in ls]
+
+
+def compare_fresh(img, priv):
+    """`holds on open and after any change`: the relation the objects carry now (`priv`, read before anything
+    else) is the relation of the same arrangement freshly opened."""
+    nodes = describe(img)
+    fresh, _, _ = db.make_image(db.nested(to_nested(nodes)))
+    set_mode(fresh, img.compatibility_mode.name)
+    want = private_relation(fresh)
+    if len(want) != len(priv):
+        return {"what": "layer count", "observed": len(priv), "expected": len(want)}
+    for k, (o, e) in enumerate(zip(priv, want)):
+        if o[1] != e[1]:
+            return {"layer": k, "what": "clip_layers (vs the same arrangement freshly opened)", "observed": o[1], "expected": e[1]}
+        if o[0] != e[0]:
+            return {"layer": k, "what": "has_clip_target (vs the same arrangement freshly opened)", "observed": o[0], "expected": e[0]}
+    return None
+
+
+def has_leaf_pt(nodes):
+    return any(pt and kids is None for _, pt, kids in _flatten(nodes))
+
+
+class Tracer:
+    """Snapshots for the model: after every public mutator call the stored relation (private attributes first),
+    then the inputs (mode, tree with object identities)."""
+
+    def __init__(self, img):
+        self.img = img
+        self.ids = {}
+        self.keep = []           # keeps the objects alive so that id() stays unique
+        self.steps = []          # (row, mode index, tree token, state string)
+
+    def oid(self, l):
+        if id(l) not in self.ids:
+            self.ids[id(l)] = len(self.ids)
+            self.keep.append(l)
+        return self.ids[id(l)]
+
+    def state(self):
+        out = []
+        for l in db.walk(self.img):
+            tgt, clip = l._has_clip_target, list(l._clip_layers)
+            out.append((self.oid(l), "%d:%s:%s" % (self.oid(l), "t" if tgt else "f", ",".join(str(self.oid(x)) for x in clip))))
+        return " ".join(x for _, x in sorted(out)) or "-"
+
+    def tree(self):
+        from psd_tools.constants import BlendMode
+
+        def rec(group):
+            toks = []
+            for l in group._layers:
+                d = int(bool(l.clipping_layer)) + 4 * int(l.blend_mode == BlendMode.PASS_THROUGH)
+                t = "%d:%d" % (self.oid(l), d)
+                if hasattr(l, "_layers"):
+                    t += "[" + rec(l) + "]"
+                toks.append(t)
+            return " ".join(toks)
+        return rec(self.img) or "-"
+
+    def __call__(self, row):
+        st = self.state()                                  # private attributes before any public accessor
+        self.steps.append((row, MODES.index(self.img.compatibility_mode.name), self.tree(), st))
+
+
+def run_history(recipe_nodes, mode, ops, seed, want_trace=False):
     """Rebuild the document, apply `ops` (names) with arguments from Random(seed); after each op compare
-    the reported relation with the spec on the current tree. Returns (index of first stale op | None, log, diff)."""
+    the stored relation with the spec on the current tree and with the same arrangement freshly opened.
+    Returns (index of first stale op | None, log, diff[, trace])."""
     import random
     rng = random.Random(seed)
     img, _, _ = db.make_image(db.nested(to_nested(recipe_nodes)))
+    w = World(img)
+    tr = Tracer(img)
+    tree0 = tr.tree()
+    state0 = tr.state()
+    w.trace = tr
     set_mode(img, mode)
+    tr("PSDImage.compatibility_mode.setter")
     log = []
+    res = (None, log, None)
     for k, op in enumerate(ops):
         try:
-            d = apply_op(img, op, rng)
+            d = apply_op(w, op, rng)
         except Exception as e:  # noqa: refused edits are C09/C10's business
             log.append({"op": op, "raised": err_class(e)})
             d = None
         else:
             log.append(d)
-        diff = compare_relation(img)
+        priv = private_relation(img)                        # before anything public
+        diff = None
+        if not has_leaf_pt(describe(img)):
+            diff = compare_relation(img)
+        if diff is None:
+            diff = compare_fresh(img, priv)
         if diff is not None:
-            return k, log, diff
-    return None, log, None
+            res = (k, log, diff)
+            break
+    if want_trace:
+        return res + ((tree0, state0, tr.steps),)
+    return res
 
 
 # ---- the check -------------------------------------------------------------------------------------
 def run(ctx: core.Run):
     gen = ctx.regenerate(extract_c15.gen_clip_modes)
+    gen2 = ctx.regenerate(extract_c15.gen_clip_current)
     ctx.prove(["PsdVerif.Props.C15"])
     ctx.trusted_base += [
         "Lean 4.33 kernel; axioms allowed: propext, Classical.choice, Quot.sound (audited per theorem)",
         "Model/Clip.lean is a hand transliteration of rec_helper in PSDImage._compute_clipping_layers; tied by this run's correspondence check",
-        "harness/extract_c15.py: AST reader of _compute_clipping_layers/_clear_clipping_layers, CompatibilityMode members",
+        "harness/extract_c15.py: AST reader of _compute_clipping_layers/_clear_clipping_layers, CompatibilityMode members; "
+        "and the call-graph flattener behind Generated/ClipCurrent.lean (which object an expression names: textual substitution "
+        "of self / parameters / simple aliases, `X._psd` = the document of X; the same expression names the same object "
+        "within one straight-line segment)",
+        "Model/ClipState.lean: the stored relation as attributes on the nodes, a recomputation = clear over the visited layers "
+        "then the pass; tied by the history correspondence of this run",
+        "C09's invariants: a layer object occurs once in a tree; a container inside a document has _psd = that document",
         "harness/docbuild.py: synthetic documents; layers identified by pre-order position",
         "the specification: Model/Clip.lean `Spec.clip` (proved equal to the pass) and, independently, `spec_level` in harness/props/C15.py",
     ]
@@ -317,7 +566,11 @@ def run(ctx: core.Run):
         "a non-group layer whose blend mode was set to pass-through is outside the property's domain (the code treats it "
         "like a pass-through group; theorem groupOnly_reading_agrees / groupOnly_reading_differs); it is compared model vs "
         "code but not judged by the search",
-        "the `kept current` half is checked on the real code by search only (no edit model in this check)",
+        "kept current is proved for histories of PUBLIC mutators of the API classes (the rows of Generated/ClipCurrent.lean); "
+        "writing layer._record.clipping, a divider block or layer.tagged_blocks directly bypasses every setter and is outside the claim",
+        "in the theorem a structural edit may replace the tree by ANY tree (what an edit does to the tree is C09's subject); "
+        "`_update_record()`, the traversals and whatever a mutator calls between a raw mutation and the recomputation that "
+        "covers it are assumed not to raise (asserts and exception paths are not part of the table)",
     ]
     quick = ctx.quick
     rng = ctx.rng
@@ -397,25 +650,38 @@ def run(ctx: core.Run):
     # ordinary pass exactly when it has a target
     _check_compositor_gate(ctx)
 
-    # ============ part 2: kept current after edits (search on the real code) =========================
+    # ============ part 2: kept current after edits (search on the real code) and ======================
+    # ============ part 3: the same histories on the state model (correspondence) ======================
     n_hist = 150 if quick else 2500
     hist_len = 6 if quick else 10
     stale_seen = {}
-    # every op once from a fixed arrangement first (so that each op is certainly exercised), then random histories
+    # every op alone from two fixed arrangements first (so that each op is certainly exercised), every ordered pair
+    # of compatibility modes, then random histories
     base = [(False, False, None), (True, False, None), (False, True, [(False, False, None), (True, False, None), (True, False, None)]),
             (True, False, None), (False, False, None), (True, False, None)]
+    # two target-less clipping layers at the bottom, a pass-through group that carries a run, a group whose only
+    # children are clipping layers
+    base_b = [(True, False, None), (True, False, None),
+              (False, True, [(True, False, None), (False, False, None), (True, False, None)]),
+              (True, False, None), (False, False, [(True, False, None), (True, False, None)]), (True, False, None)]
     plans = []
     for op in OPS:
         for s in range(12 if quick else 60):
-            plans.append((base, "PHOTOSHOP" if s % 2 == 0 else "PAINT_TOOL_SAI", [op], rng.getrandbits(30)))
+            plans.append((base if s % 4 < 2 else base_b, MODES[s % len(MODES)] if s % 3 else "PAINT_TOOL_SAI", [op],
+                          rng.getrandbits(30)))
+    for m1 in MODES:
+        for m2 in MODES:
+            plans.append((base_b, m1, ["set_compat=" + m2], rng.getrandbits(30)))
     for c in corp:
         if c.get("kind") == "history":
             plans.insert(0, (_nodes_from_json(c["nodes"]), c["mode"], c["ops"], c["seed"]))
     for _ in range(n_hist):
         nodes = random_nodes(rng, rng.randrange(0, 3), [rng.randrange(3, 14)])
         plans.append((nodes, rng.choice(MODES), [rng.choice(OPS) for _ in range(hist_len)], rng.getrandbits(30)))
+    traces = []
     for nodes, mode, ops, seed in plans:
-        k, log, diff = run_history(nodes, mode, ops, seed)
+        k, log, diff, trace = run_history(nodes, mode, ops, seed, want_trace=True)
+        traces.append(((nodes, mode, list(ops), seed), trace))
         ctx.count(("history", tree_token(nodes), mode, tuple(ops), seed), nontrivial=True)
         for d in log:
             if d:
@@ -438,9 +704,46 @@ def run(ctx: core.Run):
                 k2, _, diff2 = run_history(nodes, mode, prefix + [op], seed)
                 if k2 == len(prefix):
                     ops, k, diff = prefix + [op], k2, diff2
-            ctx.fail(f"C15/stale-after/{op}", f"clip_layers / has_clip_target not recomputed after {op}",
+            opname = op.split("=")[0]
+            ctx.fail(f"C15/stale-after/{opname}", f"clip_layers / has_clip_target not recomputed after {opname}",
                      {"kind": "history", "nodes": _nodes_to_json(nodes), "mode": mode, "ops": ops[:k + 1], "seed": seed},
-                     diff, "the specification evaluated on the current tree", how="search:edit-history")
+                     diff, "the specification evaluated on the current tree (and the same arrangement freshly opened)",
+                     how="search:edit-history")
+
+    # part 3: one driver line = one history; the stored relation after the constructor and after every public call
+    reqs = []
+    for _, (tree0, state0, steps) in traces:
+        line = ["clipst.hist", tree0]
+        for row, mi, tree, _ in steps:
+            line += [row, mi, tree]
+        reqs.append(tuple(line))
+    rows_seen = set()
+    for (plan, (tree0, state0, steps)), ans in zip(traces, drv.batch(reqs)):
+        ctx.corr_cases += 1
+        nodes, mode, ops, seed = plan
+        case = {"kind": "history", "nodes": _nodes_to_json(nodes), "mode": mode, "ops": ops, "seed": seed}
+        if ans[0] != "ok":
+            ctx.disagree("the state model rejected a history (clipst.hist)", dict(case, answer=list(ans)[:3]))
+            continue
+        got = ans[1].split("|")
+        want = [state0] + [st for _, _, _, st in steps]
+        names = ["<open>"] + [row for row, _, _, _ in steps]
+        if len(got) != len(want):
+            ctx.disagree("the state model answered %d states for %d" % (len(got), len(want)), case)
+            continue
+        for n, (g, w_, row) in enumerate(zip(got, want, names)):
+            rows_seen.add(row)
+            ctx.hist("model_step", row)
+            if g == "norow":
+                ctx.disagree("public mutator %s called by the harness has no row in Generated/ClipCurrent.lean" % row,
+                             dict(case, step=n))
+                break
+            if g != w_:
+                ctx.disagree("stored clip relation differs after %s (state model clipst.hist vs implementation)" % row,
+                             dict(case, step=n, model=g, impl=w_))
+                break
+    ctx.extra["model_rows_exercised"] = sorted(rows_seen)
+    ctx.extra["table_rows"] = [n for n, _ in (gen2["rows"] if "rows" in gen2 else [])]
     ctx.extra["histories"] = len(plans)
     ctx.extra["recompute_callers"] = gen["recompute_callers"]
 
@@ -450,11 +753,18 @@ def run(ctx: core.Run):
         "nested inside (pass-through) groups with clipping neighbours; lists with non-group pass-through children (model vs "
         "code only); random trees (depth <= 5, <= 40 layers). A case is non-trivial when some layer has the clipping flag; "
         "distinct = (tree, mode). part 2: %d edit histories (every operation alone from a fixed arrangement, then random "
-        "histories of %d operations over %d operations) with the relation compared with the specification after every step."
+        "histories of %d operations over %d operations, among them moves into detached groups and into a second document, "
+        "layers adopted from there, slices, blend modes of plain layers, all 25 ordered pairs of compatibility modes) with the "
+        "private attributes compared after every step with the specification (documents without pass-through plain layers) and "
+        "with the same arrangement freshly opened (all documents). part 3: the same histories, every public mutator call a "
+        "step of the state model, stored relation compared after the constructor and after every call."
         % (nmax, len(plans), hist_len, len(OPS)))
     ctx.notes += [
-        "stated in DESIGN, not proved here: clip_current (ClipFresh preserved by every edit step) - needs the edit model of "
-        "C09; this check searches it on the real code instead (part 2)",
+        "DESIGN's clip_current is proved as kept_current / kept_current_now / kept_current_meaning over Model/ClipState.lean "
+        "(structural edits abstract: any new tree), tied to the source by Generated/ClipCurrent.lean; it is ALSO searched on "
+        "the real code (part 2) and the state model is run against every public call of those histories (part 3)",
+        "defect found by part 2 with the fresh-open oracle and fixed in the repository (b2a7dfa): the Layer.blend_mode setter did "
+        "not recompute although the pass tests the blend mode of every layer",
         "stated in DESIGN, not proved here: compositor_honours - observed dynamically on pixel documents (compositor gate)",
         "defect found by part 2 and fixed in the repository (fix: recompute clipping relationships after structural edits "
         "and group blend-mode changes): every structural edit left clip_layers/_has_clip_target stale",
@@ -462,8 +772,13 @@ def run(ctx: core.Run):
     ctx.exhaustive = True
     ctx.model_coverage = {
         "modelled": ["rec_helper on one children list (stack, pass-through test, trailing loop)", "recursion over the tree",
-                     "_clear_clipping_layers defaults", "CompatibilityMode members"],
-        "search_only": ["recomputation after structural edits / setters", "compositor gate at composite/__init__.py:231"],
+                     "_clear_clipping_layers defaults", "CompatibilityMode members",
+                     "the stored relation as state: clear over the visited layers, then the pass (Model/ClipState.lean)",
+                     "every public mutator as a list of effects (raw mutations, recomputations with owner and tests) from the source",
+                     "the constructor's final recomputation"],
+        "search_only": ["compositor gate at composite/__init__.py:231"],
+        "abstract": ["what a structural edit does to the tree (any new tree in the theorem; read off the real objects in the "
+                     "correspondence)"],
         "opaque": ["pixels of the composite (C11)"],
     }
     if ctx.tier == "thorough":
